@@ -23,7 +23,7 @@ pub struct Base {
 }
 
 fn api(calls: Vec<CallSpec>, cwd: &str, env: Vec<(String, String)>) -> NodeSpec {
-    NodeSpec { kind: NodeKind::Api { calls }, cwd: cwd.into(), env, hashseed: 0, faults: vec![], leak: 0, canary: false, clock: None, pid: None }
+    NodeSpec { kind: NodeKind::Api { calls }, cwd: cwd.into(), env, hashseed: 0, faults: vec![], leak: 0, canary: false, clock: None, pid: None, reuse_config: false }
 }
 
 fn text_op(path: &str, bytes: &[u8]) -> Op {
@@ -81,7 +81,7 @@ pub fn make_base(pool: &Pool, rng: &mut Rng, idx: usize, small_only: bool) -> Ba
                 }
                 args.push("x.lalrpop".into());
                 args.push("y.lalrpop".into());
-                NodeSpec { kind: NodeKind::Cli { args }, cwd: String::new(), env: vec![], hashseed: 0, faults: vec![], leak: 0, canary: false, clock: None, pid: None }
+                NodeSpec { kind: NodeKind::Cli { args }, cwd: String::new(), env: vec![], hashseed: 0, faults: vec![], leak: 0, canary: false, clock: None, pid: None, reuse_config: false }
             }),
             vec![],
         ),
